@@ -14,7 +14,7 @@ from .ctx import Raised
 
 MAX_ORDER, MAX_NUMEL, MAX_RANK, POOL = 6, 20000, 24, 10
 STEP_TIMEOUT = 20.0
-VIEWS = ['plain', 'slice', 't', 'conj', 'sum', 'to_ttm', 'detach', 'clone-of-view', 'buffer']
+VIEWS = ['plain', 'slice', 't', 'conj', 'sum', 'to_ttm', 'detach', 'clone-of-view', 'buffer', 'tracked-result']
 
 
 class Walker:
@@ -88,6 +88,11 @@ class Walker:
                 N = [N[0]] * d
                 M = [M[0]] * d if M else None
             r = self.tt.TT(gens.buffer_views(gens.make_cores(N, R, self.dt, vals, self.g, M=M)))
+        elif view == 'tracked-result':
+            # the operand is a RESULT computed from a watched TT: its cores are non-leaf tensors of an autograd graph (what every intermediate of a training step is)
+            b0 = base(N, R, self.dt, vals, self.g, M=M)
+            c.lib('grad.watch', lambda t: self.tt.grad.watch(t), b0, inplace=(b0,))
+            r = c.lib('TT*scalar', lambda t: t * 3.0, b0)
         elif view == 'clone-of-view':
             r = c.lib('conj', lambda t: t.conj(), gens.make_tt(N, R, self.dt, vals, self.g, M=M))
             if isinstance(r, self.tt.TT):
@@ -509,6 +514,31 @@ def _(w):
     fm = {'x+s': lambda a: a + sv, 's+x': lambda a: sv + a, 'x-s': lambda a: a - sv, 's-x': lambda a: sv - a, 'x*s': lambda a: a * sv, 's*x': lambda a: sv * a, 'x/s': lambda a: a / sv,
           'x+=s': lambda a: a + sv, 'x-=s': lambda a: a - sv, 'x*=s': lambda a: a * sv, 'x/=s': lambda a: a / sv}[o]
     return 'TT.scalar(%s)' % o, f, (x,), {'_model': lambda a: _m(fm(a), (_n(a) + abs(sv) * a.numel() ** 0.5) * max(1.0, abs(sv), 1.0 / abs(sv) if sv != 0 else 1.0))}
+
+
+@op('aug_neutral')
+def _(w):
+    """Augmented assignments with the scalars for which implementations like to take shortcuts (exact zero, one) on an object of rank > 1, through a second reference:
+    `y = x; y *= 0`, `y += 0`, `y /= 1` ... Whatever object `y` is afterwards - a new one today - every object in existence must be self-consistent and x must keep its value."""
+    N = w.small_shape(3)
+    d = len(N)
+    x = w.fresh(N, M=[w.rng.choice((1, 2)) for _ in N] if w.rng.random() < 0.3 else None, R=[1] + [w.rng.randint(2, 3) for _ in range(d - 1)] + [1], view='plain') if w.rng.random() < 0.6 else w.pick()
+    sym, s = w.rng.choice([('*', 0), ('*', 0.0), ('*', torch.tensor(0.0, dtype=w.dt)), ('+', 0), ('-', 0.0), ('/', 1), ('*', 1), ('*', 1.0), ('+', torch.tensor([0.0], dtype=w.dt))])
+
+    def f(a):
+        y = a
+        if sym == '*':
+            y *= s
+        elif sym == '+':
+            y += s
+        elif sym == '-':
+            y -= s
+        else:
+            y /= s
+        return y
+    sv = float(s.reshape(-1)[0].real) if torch.is_tensor(s) else s
+    fm = {'*': lambda a: a * sv, '+': lambda a: a + sv, '-': lambda a: a - sv, '/': lambda a: a / sv}[sym]
+    return 'TT.scalar(x%s=%s)' % (sym, 'zero' if sv == 0 else 'one'), f, (x,), {'_model': lambda a: _m(fm(a), _n(a) + 1.0)}
 
 
 @op('neg')
